@@ -333,7 +333,7 @@ class Ops:
             if isinstance(s, tuple):
                 tot = tot + len(s[1])
             else:
-                tot = tot + self.count(s.lid, s.pidx, s.hi, s.g, s.cond)
+                tot = tot + self.count_seg(s)
         return z3.simplify(tot)
 
     def count(self, lid, pidx, hi, g, cond):
@@ -350,6 +350,24 @@ class Ops:
         term = fresh_int("cnt")
         self.st.counts.append(CountRec(lid, tuple(pidx), hi, g, cond, term))
         self.st.assume(z3.And(term >= 0, term <= hi))
+        return term
+
+    def count_seg(self, s, cond=None):
+        """Number of elements of segment s (optionally restricted by an extra condition over its bound variables)."""
+        c = s.cond if cond is None else cond
+        if not s.outer:
+            return self.count(s.lid, s.pidx, s.hi, s.g, c)
+        # nested comprehension: a non-negative integer that is positive only if witnesses exist at every level
+        # (the converse is not asserted: an over-approximation, extra paths only)
+        term = fresh_int("ncnt")
+        subs = []
+        facts = []
+        for (lid, pidx, hi, g, fc) in list(s.outer) + [(s.lid, s.pidx, s.hi, s.g, c)]:
+            w = fresh_int("nw")
+            subs.append((g, w))
+            facts.append(z3.substitute(z3.And(g >= 0, g < hi, fc), *subs))
+        self.st.assume(term >= 0)
+        self.st.assume(z3.Implies(term > 0, z3.And(*facts)))
         return term
 
     def new_conc_list(self, items, as_set=False):
@@ -375,7 +393,7 @@ class Ops:
                     disj.append(self.eq(it, x))
             else:
                 c = z3.And(s.cond, self.eq(s.mapv, x))
-                disj.append(self.count(s.lid, s.pidx, s.hi, s.g, c) > 0)
+                disj.append(self.count_seg(s, c) > 0)
         return z3.Or(*disj) if disj else FALSE
 
     # ------------------------------------------------------------------ dicts
